@@ -6,7 +6,8 @@ line: C03 <cls> <initial bits> <op> <op> ...          (TAB separated; a history 
   op tokens (space separated inside a field):
     append X | iadd X (+=) | prepend X | insert X pos | overwrite X pos
     delitem i | delslice a b c | setitem i V | setslice a b c V            V = i:<int> | t:0/1 (False/True) | b:X
-    replace Xold Xnew start end count ba | reverse s e | rol k s e | ror k s e
+    replace Xold Xnew start end count ba [opt] | reverse s e | rol k s e | ror k s e
+        (ba = explicit bytealigned argument 0 | 1 | N (None); opt = bitstring.options.bytealigned during the call, default 0)
     set v P | invert P                                                    P = None | i:<int> | l:<ints> | r:a,b,c
     byteswap F s e rep                                                    F = None | i:<int> | l:<ints> | s:<fmt>
     ishl n | ishr n | imul n | iand X | ior X | ixor X | clear
@@ -140,7 +141,13 @@ def _apply(a, t):
             chk.append((bits, c))
         return a.__setitem__(key, v), chk
     if op == "replace":
-        return a.replace(opnd(t[1]), opnd(t[2]), _opt(t[3]), _opt(t[4]), _opt(t[5]), t[6] == "1"), chk
+        ba = None if t[6] == "N" else t[6] == "1"
+        if len(t) == 8:                                   # module option bitstring.options.bytealigned for this call
+            bitstring.options.bytealigned = t[7] == "1"
+        try:
+            return a.replace(opnd(t[1]), opnd(t[2]), _opt(t[3]), _opt(t[4]), _opt(t[5]), ba), chk
+        finally:
+            bitstring.options.bytealigned = False
     if op == "reverse":
         return a.reverse(_opt(t[1]), _opt(t[2])), chk
     if op == "rol":
@@ -319,7 +326,9 @@ def ref_step(l, t):
         return "N", m
     if op == "replace":
         old, new = X(t[1]), X(t[2])
-        s, e, count, al = _opt(t[3]), _opt(t[4]), _opt(t[5]), t[6] == "1"
+        s, e, count = _opt(t[3]), _opt(t[4]), _opt(t[5])
+        # the explicit bytealigned argument when it is not None, the module option otherwise
+        al = (len(t) == 8 and t[7] == "1") if t[6] == "N" else t[6] == "1"
         if not old:
             raise _Err
         a, z = _vrange(n, s, e)
@@ -562,7 +571,10 @@ def _rand_op(rng, cur):
         new = _rand_operand(rng, cur)
         s, e = _range_class(rng, n)
         count = rng.choice([None, None, None, 0, 1, 2, 2, 3, -1, 100])
-        return f"replace {old} {new} {_sv(s)} {_sv(e)} {_sv(count)} {rng.choice('0001')}"
+        r = rng.random()
+        if r < 0.5:
+            return f"replace {old} {new} {_sv(s)} {_sv(e)} {_sv(count)} {rng.choice('0001')}"
+        return f"replace {old} {new} {_sv(s)} {_sv(e)} {_sv(count)} {rng.choice('N01')} {rng.choice('01')}"
     if kind == "reverse":
         s, e = _range_class(rng, n)
         return f"reverse {_sv(s)} {_sv(e)}"
@@ -756,6 +768,27 @@ def gen(rng, tier):
                     new = rng.choice(["-", "0", "1", "10", "111", "@", "0~s"])
                     s, e = (None, None) if rng.random() < 0.5 else (a, z)
                     yield _line(cls, cur, [f"replace {old} {new} {_sv(s)} {_sv(e)} {_sv(count)} 0"])
+    # ---- 3b. replace: explicit bytealigned argument {None, False, True} x module option {False, True}, on data where
+    #          `old` occurs at aligned and at unaligned positions
+    for n in ([9, 16, 17, 24, 33] + ([40, 64, 65] if big else [])):
+        for rep_i in range(6 if big else 3):
+            old = rng.choice(["1", "11", "01", "101", "0110", "11110000", "10101010", "1"])
+            base = list(rand_bits(rng, n))
+            for p in {0, 8 if n > 8 + len(old) else 0, rng.randint(1, 7), rng.randint(9, max(9, n - len(old)))}:
+                if p + len(old) <= n:
+                    base[p:p + len(old)] = list(old)           # planted: aligned and unaligned occurrences
+            cur = "".join(base)
+            for cls in classes:
+                for ba in "N01":
+                    for opt in "01":
+                        for count in (None, 1, 2):
+                            if count is not None and rng.random() < 0.5:
+                                continue
+                            new = rng.choice(["-", "0", "1", "00", "111", "@", "0~s"])
+                            s_, e_ = rng.choice([(None, None), (None, None), (1, None), (None, -1), (8, None), (3, n - 2)])
+                            yield _line(cls, cur, [f"replace {_kinded(rng, old)} {new} {_sv(s_)} {_sv(e_)} {_sv(count)} {ba} {opt}"])
+                # the option must not leak into the next call of a history
+                yield _line(cls, cur, [f"replace {old} 0 None None None N 1", f"replace 1 11 None None 2 N 0", "replace 0 - None None 1 0 1"])
     # ---- 4. byteswap
     blens = [0, 7, 8, 9, 16, 17, 20, 24, 25, 32, 40, 47, 48, 64] + ([56, 72, 80, 128] if big else [])
     fmts = ["None", "i:0", "i:1", "i:2", "i:3", "l:1,2", "l:2,0,1", "l:", "l:0", "s:h", "s:2h", "s:bh", "s:<hb", "s:>q", "s:=l", "s:e", "s:2b1h",
